@@ -673,6 +673,11 @@ def check_forwarders(run, cx, cfg, only=None):
                     ok = recv_ok and rest_ok and len(evs) == 1 and unreborrow(ps[0]['ret']) == evs[0]['result']
                 else:
                     ok = recv_ok and rest_ok and len(evs) == 2 and rp(evs[1]).endswith('Option::<T>::' + then) and evs[1]['args'][0] == evs[0]['result'] and unreborrow(ps[0]['ret']) == evs[1]['result']
+                    if not ok and recv_ok and rest_ok and len(evs) == 1:
+                        # the same spelled as a match: Some(x) => x, None => panic
+                        res = evs[0]['result']
+                        ok = dict(cond_facts(ps[0])).get(('discr', res)) == ('int', 1, 'isize') and unreborrow(ps[0]['ret']) == ('field', ('variant', res, 1), 0) \
+                            and not [1 for q in cx.paths(fn, stop=[target]) if q['end'] == 'return' and q is not ps[0]]
         run.check(ok, 'rb.forwarder', fn, cfg, 'must forward to %s(self%s)%s: [%s]' % (target, ', index' if 'index' in fn else '', '.expect(..)' if then else '',
                                                                                      '; '.join(describe_path(p) for p in ps)), where=where(body))
     if only is not None:
